@@ -969,10 +969,12 @@ coap_get_query(const coap_pdu_t *request) {
     if (query) {
       query->length = length;
       unsigned char *s = query->s;
+      int first = 1;
       coap_option_iterator_init(request, &opt_iter, &f);
       while ((q = coap_option_next(&opt_iter))) {
-        if (s != query->s)
+        if (!first)
           *s++ = '&';
+        first = 0;
         uint16_t seg_len = coap_opt_length(q), i;
         const uint8_t *seg= coap_opt_value(q);
         for (i = 0; i < seg_len; i++) {
